@@ -239,8 +239,18 @@ def check_variants(cfg: Dict, inv: List[str], rng: Rng, digest_steps: int, n_var
             variants += G.format_variants(cfg, rng, formats)
         except Exception as e:  # the rig's own text generation failing is a rig problem, reported as such
             fails.append({"kind": "format-variant-not-producible", "exc": type(e).__name__, "msg": str(e)[:160]})
+    # describe_state() of the whole simulation, canonical (uuids / MAC addresses masked): the variant must give the same text as the
+    # file itself. Python's `random` is seeded before each of these loads: DoSBot.run() draws a port-scan trial WHILE LOADING (see
+    # the design note), so two loads of one file differ unless the generator is in the same state.
+    import random as _random
+    base_state = None
+    if len(inv) < 1500:
+        _random.seed(20)
+        g0, f0 = _load(cfg)
+        base_state = None if f0 else R.state_digest(g0)
     for name, v in variants:
         # aliases make the parsed document SHARE sub-mappings: the loader gets it as parsed (deepcopy keeps the sharing)
+        _random.seed(20)
         game, f = _load(v)
         if f:
             fails.append({"kind": "key-order-changes-loading" if name in ("permuted", "reversed") else "formatting-changes-loading",
@@ -251,6 +261,9 @@ def check_variants(cfg: Dict, inv: List[str], rng: Rng, digest_steps: int, n_var
             diff = sorted(set(inv) ^ set(inv2))
             fails.append({"kind": "key-order-changes-inventory" if name in ("permuted", "reversed") else "formatting-changes-inventory",
                           "variant": name, "item": diff[0].split()[0], "diff": diff[:6]})
+        elif base_state is not None and R.state_digest(game) != base_state:
+            fails.append({"kind": "key-order-changes-describe-state" if name in ("permuted", "reversed") else "formatting-changes-describe-state",
+                          "variant": name, "digests": [base_state, R.state_digest(game)]})
     if digest_steps > 0:
         try:
             d0 = R.trajectory_digest(cfg, 7, digest_steps)
